@@ -2,10 +2,6 @@
 
 use crate::engine::Run;
 
-pub mod c10;
-pub mod c11;
-pub mod c18;
-
 pub struct Prop {
     pub id: &'static str,
     pub rule: &'static str,
@@ -13,12 +9,32 @@ pub struct Prop {
     pub body: fn(&mut Run),
 }
 
-pub fn all() -> Vec<Prop> {
-    vec![
-        Prop { id: "C10", rule: c10::RULE, note: c10::NOTE, body: c10::run },
-        Prop { id: "C11", rule: c11::RULE, note: c11::NOTE, body: c11::run },
-        Prop { id: "C18", rule: c18::RULE, note: c18::NOTE, body: c18::run },
-    ]
+macro_rules! registry {
+    ($($m:ident => $id:literal),* $(,)?) => {
+        $(pub mod $m;)*
+        pub fn all() -> Vec<Prop> {
+            vec![$(Prop { id: $id, rule: $m::RULE, note: $m::NOTE, body: $m::run },)*]
+        }
+    };
+}
+
+registry! {
+    c10 => "C10",
+    c11 => "C11",
+    c18 => "C18",
+    c19 => "C19",
+    c21 => "C21",
+    c22 => "C22",
+    c23 => "C23",
+    c24 => "C24",
+    c25 => "C25",
+    c26 => "C26",
+    c27 => "C27",
+    c28 => "C28",
+    c29 => "C29",
+    c32 => "C32",
+    c35 => "C35",
+    c36 => "C36",
 }
 
 pub fn rule(id: &str) -> String {
